@@ -5,6 +5,7 @@ import (
 	"runtime/debug"
 	"fmt"
 	"net"
+	"strings"
 	"sync"
 	"testing"
 	"testing/cryptotest"
@@ -14,6 +15,7 @@ import (
 	acracensor "github.com/cossacklabs/acra/acra-censor"
 	"github.com/cossacklabs/acra/crypto"
 	"github.com/cossacklabs/acra/decryptor/base"
+	acramysql "github.com/cossacklabs/acra/decryptor/mysql"
 	"github.com/cossacklabs/acra/decryptor/postgresql"
 	"github.com/cossacklabs/acra/encryptor/base/config"
 	"github.com/cossacklabs/acra/logging"
@@ -21,6 +23,7 @@ import (
 	"github.com/cossacklabs/acra/pseudonymization"
 	tokenStorage "github.com/cossacklabs/acra/pseudonymization/storage"
 	"github.com/cossacklabs/acra/sqlparser"
+	myDialect "github.com/cossacklabs/acra/sqlparser/dialect/mysql"
 	pgDialect "github.com/cossacklabs/acra/sqlparser/dialect/postgresql"
 	"github.com/jackc/pgx/v5/pgproto3"
 	log "github.com/sirupsen/logrus"
@@ -39,6 +42,7 @@ type Stmt struct {
 	Describe      bool // send Describe(portal) in the extended protocol
 	Name          string
 	ParamOIDs     []uint32 // parameter types declared in Parse
+	Args          []interface{} // MySQL: arguments of a prepared statement (int64, string, []byte, nil)
 	Tag           string   // harness bookkeeping
 }
 
@@ -51,6 +55,7 @@ type StmtResult struct {
 	Ready     bool
 	ParamOIDs []uint32
 	Messages  []string // type names of every message received, in order
+	MyTypes   []string // MySQL: database type names of the result columns
 	Raw       [][]byte // encoded form of every message received
 }
 
@@ -71,6 +76,7 @@ type PgWorld struct {
 	delivered map[string]int
 	chunkMod int // 0: whole, 1: small chunks, 2: byte by byte
 	maxSteps int
+	mysql    bool
 }
 
 // PgWorldConfig configures NewPgWorld.
@@ -81,6 +87,9 @@ type PgWorldConfig struct {
 	ChunkMode   int
 	PoisonCalls base.Callback
 	KeyFaults   bool
+	// MySQL: the deployment is AcraServer in MySQL mode in front of the simulated MySQL server.
+	MySQL          bool
+	MyDeprecateEOF bool
 }
 
 type session struct {
@@ -110,13 +119,28 @@ func (s *session) HasData(k string) bool           { _, ok := s.GetData(k); retu
 // Bubble runs body in a synctest bubble with deterministic randomness.
 func Bubble(t *testing.T, seed uint64, body func()) {
 	cryptotest.SetGlobalRandom(t, seed)
+	driverLeak.Store(false)
+	defer func() {
+		// helper goroutines of a client driver that panicked stay parked (see driverLeak): the bubble
+		// reports them as a deadlock when its main goroutine is done; nothing else is tolerated here
+		if r := recover(); r != nil {
+			if driverLeak.Load() && strings.Contains(fmt.Sprint(r), "deadlock") {
+				return
+			}
+			panic(r)
+		}
+	}()
 	synctest.Test(t, func(t *testing.T) { body() })
 }
 
 // NewPgWorld builds the deployment. Must be called inside the bubble.
 func NewPgWorld(w *kernel.World, rng *kernel.RNG, cfg PgWorldConfig) (*PgWorld, error) {
 	sqlparser.SetDefaultDialect(pgDialect.NewPostgreSQLDialect())
-	pw := &PgWorld{W: w, DB: NewPgDB(), chunkMod: cfg.ChunkMode, maxSteps: 4000}
+	pw := &PgWorld{W: w, DB: NewPgDB(), chunkMod: cfg.ChunkMode, maxSteps: 4000, mysql: cfg.MySQL}
+	if cfg.MySQL {
+		sqlparser.SetDefaultDialect(myDialect.NewMySQLDialect())
+		pw.DB.MySQL, pw.DB.MyDeprecateEOF = true, cfg.MyDeprecateEOF
+	}
 	pw.Disk = ksw.NewDisk(1, rng)
 	scratch := kernel.NewWorld(&kernel.Plan{}, false)
 	scratch.MaxSteps = 1 << 60
@@ -165,6 +189,10 @@ func NewPgWorld(w *kernel.World, rng *kernel.RNG, cfg PgWorldConfig) (*PgWorld, 
 		pw.Poison.AddCallback(cfg.PoisonCalls)
 	}
 	setting := base.NewProxySetting(sqlparser.New(sqlparser.ModeDefault), schema, h.KS, nil, censor, pw.Poison)
+	if cfg.MySQL {
+		pw.Factory, err = acramysql.NewProxyFactory(setting, h.KS, tokenizer)
+		return pw, err
+	}
 	pw.Factory, err = postgresql.NewProxyFactory(setting, h.KS, tokenizer)
 	return pw, err
 }
@@ -203,6 +231,10 @@ func (pw *PgWorld) RunSession(clientID string, script []Stmt) *SessionRun {
 	go func() {
 		defer func() { dEnd.Close(); done <- struct{}{} }()
 		defer pw.recoverActor("database")
+		if pw.mysql {
+			_ = pw.DB.ServeMySQL(dEnd)
+			return
+		}
 		_ = pw.DB.Serve(dEnd)
 	}()
 	synctest.Wait() // actors are started one at a time: no two goroutines ever run in parallel
@@ -249,7 +281,11 @@ func (pw *PgWorld) RunSession(clientID string, script []Stmt) *SessionRun {
 	go func() {
 		defer func() { cEnd.Close(); done <- struct{}{} }()
 		defer pw.recoverActor("client")
-		if err := runPgClient(cEnd, script, run.Results); err != nil {
+		play := runPgClient
+		if pw.mysql {
+			play = runMyClient
+		}
+		if err := play(cEnd, script, run.Results); err != nil {
 			run.ClientErr = err.Error()
 		}
 	}()
@@ -359,14 +395,20 @@ func (pw *PgWorld) applyStreamFaults(s *stream, conns []*SimConn) {
 		}
 		switch f.Kind {
 		case "corrupt-payload", "tiny-length":
-			if s.name == "client->proxy-c" && pw.delivered[s.name] == 1 {
+			if s.name == "client->proxy-c" && pw.delivered[s.name] == 1 && !pw.mysql {
 				continue // the startup message has no type byte
 			}
 			tiny := -1
 			if f.Kind == "tiny-length" {
 				tiny = int(f.Arg) % 4
 			}
-			if s.corruptFramed(int(f.Arg>>8), byte(f.Arg)|1, tiny) {
+			hit := false
+			if pw.mysql {
+				hit = s.corruptFramedMy(int(f.Arg>>8), byte(f.Arg)|1, tiny)
+			} else {
+				hit = s.corruptFramed(int(f.Arg>>8), byte(f.Arg)|1, tiny)
+			}
+			if hit {
 				w.Res.Fired[f.Kind]++
 				w.Event(0, "FAULT "+f.Kind+" "+s.name, fmt.Sprintf("pick=%d mask=%02x", f.Arg>>8, byte(f.Arg)|1))
 			}
